@@ -1896,6 +1896,7 @@ func emitWireFacts(w func(string, ...any), repo string, mintP, cashuP, cryptoP, 
 	emitLines("src_CacheGet", srcLines(findFunc(mintP, "Cache", "Get")))
 	emitLines("src_CacheDeleteExpired", srcLines(findFunc(mintP, "Cache", "DeleteExpired")))
 	emitLines("src_NewCache", srcLines(findFunc(mintP, "", "NewCache")))
+	emitLines("src_requestCacheKey", srcLines(findFunc(mintP, "", "requestCacheKey")))
 	emitLines("src_writeErr", srcLines(findFunc(mintP, "MintServer", "writeErr")))
 	emitLines("src_setupHeaders", srcLines(findFunc(mintP, "", "setupHeaders")))
 	emitLines("src_Start", srcLines(findFunc(mintP, "MintServer", "Start")))
